@@ -5,6 +5,7 @@ import os
 import re
 import subprocess
 import tempfile
+import threading
 import time
 
 import amcdriver as D
@@ -16,7 +17,7 @@ RULE = ('one run = one seed = one container (24 kinds: vector with amc::allocato
         'two containers of their own (push/insert/erase/assign/swap/move/merge/extract/bulk insert/swap2, copy-assignment from the shared one), each '
         'with a seeded script of 3-20 operations, released one operation at a time in a seeded order; ThreadSanitizer judges the '
         'operations as concurrent because the scheduler hand-offs are excluded from its happens-before tracking; an evaluation is one run; '
-        'distinct_nontrivial counts runs (every run has its own seed, scripts and release order)')
+        'distinct_nontrivial counts the distinct (container kind, hash of reader/writer counts + every thread script + release order) values among the runs that interleaved at least two operations, as printed by the workers')
 TSAN_ENV = 'halt_on_error=0 exitcode=0 report_signal_unsafe=0 history_size=4 second_deadlock_stack=0'
 
 
@@ -73,6 +74,9 @@ def run(prop, tier, seed, seconds):
     nslices = 64
     env = dict(os.environ, TSAN_OPTIONS=TSAN_ENV)
 
+    sched_hashes = set()
+    hlock = threading.Lock()
+
     def work(k):
         count = (total - k + nslices - 1) // nslices if total > k else 0
         remain = deadline - time.time()
@@ -85,7 +89,12 @@ def run(prop, tier, seed, seconds):
         stats = None
         bytes_changed = []
         for line in r.stdout.splitlines():
-            if line.startswith('STATS '):
+            if line.startswith('H '):
+                f = line.split()
+                if len(f) == 5 and int(f[4]) >= 2:  # at least two operations were interleaved
+                    with hlock:
+                        sched_hashes.add((f[2], f[3]))
+            elif line.startswith('STATS '):
                 stats = json.loads(line[6:])
             elif line.startswith('B '):
                 bytes_changed.append(line)
@@ -148,7 +157,7 @@ def run(prop, tier, seed, seconds):
     sample = subprocess.run([binary, 'one', str(seed), '0', '-v'], stdout=subprocess.PIPE, stderr=subprocess.DEVNULL, text=True, env=env).stdout.strip().splitlines()
     if cut:
         D.log('NOTE time cap: %d of %d worker(s) stopped before their planned schedules (%d of %d done)' % (cut, nslices, runs, total))
-    cov = {'evaluations': max(runs, 1), 'distinct_nontrivial': runs,
+    cov = {'evaluations': max(runs, 1), 'distinct_nontrivial': len(sched_hashes),
            'budget': {'mode': 'fixed number of schedules; the wall clock is only a cap', 'planned_runs': total, 'completed_runs': runs, 'slices_cut_by_time_cap': cut}, 'rule': RULE, 'samples': [{'seedbase': seed, 'index': 0, 'run': sample}],
            'operations': ops, 'container_kinds': kinds, 'runs_per_hour': int(runs / max(wall, 1e-9) * 3600),
            'fault_kinds_injected': {'none': 'the only nondeterminism this property depends on is the thread schedule, which the simulator decides'},
